@@ -31,13 +31,16 @@ RULE = ("waves: random complex spectra (band limit 0.5/0.67/1 of the grid), buil
         "axes (scan/ordinal/unknown, any order when eager), eager/lazy with random chunks, float32/float64; limits: fractions of the "
         "antialias cutoff or of the full grid, integers, or edges of the flexible detector's bins; midpoints random or on a pixel "
         "radius; flexible steps 0.25-3 mrad, inner 0/multiple of step/random, outer None/aligned/unaligned; segments 1-4 x 1-6 with "
-        "rotation (0, random, +-1e-9); integrate_radial on full/cutoff/float-cropped patterns, shifted and unshifted, all parities; "
+        "rotation (0, random, +-1e-9); integrate_radial on full/cutoff/float-cropped patterns, shifted and unshifted, all parities, and on "
+        "lazily stored patterns chunked along x / y / both base axes; 30 % of the cases are histories: 1-2 further rounds in the same "
+        "process with exactly one parameter changed (energy at equal grid, limits, extent at equal gpts, gpts at equal extent, data, "
+        "precision) and numerically identical limits otherwise; 25 % run an unjudged offset-detector call right before the judged one; "
         "non-trivial = annulus with >=3 pixels inside and >=3 outside and a flexible measurement with >=2 bins; distinct = distinct case "
         "signature")
-CLAUSES = ["annular", "integrate-radial", "integrate-radial-unshifted", "segmented-sum", "flexible-integrate", "additive",
-           "flexible-bin-width", "lazy-detect"]
-QUICK = dict(n=110, time=45)
-THOROUGH = dict(n=3200, time=420, shards=16)
+CLAUSES = ["annular", "integrate-radial", "integrate-radial-unshifted", "integrate-radial-base-chunked", "segmented-sum",
+           "flexible-integrate", "additive", "flexible-bin-width", "lazy-detect", "history"]
+QUICK = dict(n=85, time=45)
+THOROUGH = dict(n=2400, time=420, shards=16)
 ASSUMPTIONS = ["detector centre offsets are not exercised (the statement is about centred annuli)",
                "flexible->integrate_radial is judged for limits on bin edges of the returned measurement only"]
 
@@ -60,7 +63,7 @@ def gen(rng, tier):
     else:
         spec = [{"k": "S", "n": int(rng.integers(1, 4))} for _ in range(int(rng.integers(1, 3)))]
     step = float(rng.choice([0.25, 0.5, 1.0, 1.5, 2.0, 3.0, float(rng.uniform(0.25, 3.0))]))
-    return {
+    case = {
         "gpts": [nx, ny], "extent": extent, "energy": energy, "wave": kind, "band": float(rng.choice([0.5, 0.67, 1.0])),
         "axes": spec, "chunks": [int(rng.integers(1, 4)) for _ in spec], "lazy": lazy,
         "precision": str(rng.choice(["float32", "float32", "float64"])), "seed": int(rng.integers(0, 2 ** 31)),
@@ -75,7 +78,34 @@ def gen(rng, tier):
         "flex": {"step": step, "inner": str(rng.choice(["zero", "zero", "multiple", "random"])), "fin": float(rng.uniform(0.0, 0.3)),
                  "outer": str(rng.choice(["none", "none", "aligned", "random"])), "fout": float(rng.uniform(0.5, 1.0)),
                  "fa": float(rng.random()), "fb": float(rng.random())},
+        # lazily stored pattern split along its base axes (x only / y only / both) for integrate_radial
+        "dp_base_chunks": L.rand_base_chunks(rng, (nx, ny), p_split=0.4),
+        # an (unjudged) call with a detector offset right before the judged centred call
+        "prime_offset": bool(rng.random() < 0.25),
     }
+    if rng.random() < 0.3:
+        # history: the same detectors again in the same process with exactly one parameter changed; the limits in mrad
+        # stay identical unless they are the changed parameter (state kept between calls must not leak)
+        then = []
+        for _ in range(int(rng.integers(1, 3))):
+            k = int(rng.integers(0, 6))
+            if k == 0:
+                then.append({"energy": float(rng.choice([e for e in (40e3, 60e3, 100e3, 200e3, 300e3) if e != energy]))})
+            elif k == 1:
+                then.append({"fi": (0.0 if rng.random() < 0.3 else float(rng.uniform(0.0, 0.7))), "fo": float(rng.uniform(0.15, 1.0))})
+            elif k == 2:
+                f = float(rng.uniform(0.7, 1.4))
+                then.append({"extent": [extent[0] * f, extent[1] * float(rng.uniform(0.7, 1.4))]})
+            elif k == 3:
+                then.append({"gpts": [int(rng.integers(12, 49)), int(rng.integers(12, 49))]})
+            elif k == 4:
+                then.append({"seed": int(rng.integers(0, 2 ** 31))})
+            else:
+                then.append({"precision": "float64" if case["precision"] == "float32" else "float32"})
+        case["then"] = then
+        if case["limits"] == "flex":
+            case["limits"] = "frac"
+    return case
 
 
 # ------------------------------------------------------------------------------------------- waves
@@ -143,10 +173,30 @@ def _detect(det, w):
 
 
 # ------------------------------------------------------------------------------------------- check
+def _range(step, abtem):
+    """Upper end of the angular range a step draws its limits from (antialias cutoff or 0.98 of the grid)."""
+    nx, ny = step["gpts"]
+    px, py = _px(step)
+    if step["range"] == "cutoff":
+        return float(min(abtem.PlaneWave(energy=step["energy"], gpts=(nx, ny), extent=tuple(step["extent"])).cutoff_angles))
+    return 0.98 * min(nx // 2 * px, ny // 2 * py)
+
+
 def check(ctx, case):
     import abtem
-    with abtem.config.set({"precision": case["precision"]}):
-        _check(ctx, case, abtem)
+    steps = L.steps_of(case)
+    if len(steps) > 1:
+        # all steps of a history draw their limits from the common part of the ranges, so that equal fractions give
+        # numerically identical limits in mrad
+        rmin = min(_range(st, abtem) for st in steps)
+        for st in steps:
+            st["_rmax"] = rmin
+    for i, st in enumerate(steps):
+        if i:
+            ctx.monitor("history-steps")
+            ctx.clauses["history"] += 1      # the step itself is judged by the regular clauses
+        with abtem.config.set({"precision": st["precision"]}):
+            _check(ctx, st, abtem)
 
 
 def _check(ctx, case, abtem):
@@ -163,6 +213,8 @@ def _check(ctx, case, abtem):
     rcut = float(min(w.cutoff_angles))
     rfull = 0.98 * min(nx // 2 * px, ny // 2 * py)
     rmax = rcut if case["range"] == "cutoff" else rfull
+    if "_rmax" in case:
+        rmax = min(rmax, case["_rmax"])
     lazy = case["lazy"]
     trailing = L.scan_is_trailing(spec)
 
@@ -226,6 +278,14 @@ def _check(ctx, case, abtem):
         ctx.monitor("annular-detect")
         return _detect(abtem.AnnularDetector(inner=i, outer=o), w)
 
+    prime = (2.0 * px, -1.0 * py) if case.get("prime_offset") else None
+    if prime is not None:
+        # not judged (detector offsets are outside the statement): only there to leave state behind
+        try:
+            _detect(abtem.AnnularDetector(inner=inner, outer=outer, offset=prime), w)
+            ctx.monitor("offset-primed")
+        except Exception as e:
+            ctx.note("prime-offset-" + type(e).__name__)
     ann_ok = True
     if lazy and not trailing:
         # Lazy detection with main scan axes that are not the trailing ensemble axes: AnnularDetector declares the output as
@@ -282,11 +342,31 @@ def _check(ctx, case, abtem):
             ma = "full"
     for shifted in (dpc["fftshift"], not dpc["fftshift"]):
         dp = w.diffraction_patterns(max_angle=ma, parity=dpc["parity"], fftshift=shifted)
+        if prime is not None:
+            try:
+                L.as_numpy(dp.integrate_radial(inner, outer, offset=prime))
+            except Exception as e:
+                ctx.note("prime-offset-" + type(e).__name__)
         out = dp.integrate_radial(inner, outer)
         got = L.as_numpy(out)
         for clause in ["integrate-radial"] + ([] if shifted else ["integrate-radial-unshifted"]):
             L.within(ctx, got, L.to_reduced(lo, spec), L.to_reduced(hi, spec), clause, tol_native, max_angle=ma,
                      fftshift=shifted, parity=dpc["parity"], shape=list(dp.shape[-2:]), **detail)
+
+    # ---- the same integration on a lazily stored pattern whose base axes are split into several chunks
+    bc = case.get("dp_base_chunks")
+    if bc:
+        from abtem.measurements import DiffractionPatterns
+        full = w.diffraction_patterns(max_angle="full", parity="same", fftshift=dpc["fftshift"])
+        fv = L.as_numpy(full)
+        lz = DiffractionPatterns(L.chunk_array(fv, case["chunks"], base_chunks=bc), sampling=full.sampling, fftshift=dpc["fftshift"],
+                                 ensemble_axes_metadata=list(full.ensemble_axes_metadata), metadata=dict(full.metadata))
+        ctx.monitor("lazy-base-axes-chunked")
+        got = L.as_numpy(lz.integrate_radial(inner, outer))
+        L.within(ctx, got, L.to_reduced(lo, spec), L.to_reduced(hi, spec), "integrate-radial-base-chunked", tol_native,
+                 base_chunks=bc, fftshift=dpc["fftshift"], **detail)
+        got = L.as_numpy(lz.polar_binning(case["seg"]["nr"], case["seg"]["na"], inner, outer)).astype(np.float64)
+        L.within(ctx, got.sum((-2, -1)), lo, hi, "integrate-radial-base-chunked", tol_polar, what="polar_binning", base_chunks=bc, **detail)
 
     # ---- SegmentedDetector: the segments together cover [inner, outer)
     sg = case["seg"]
@@ -322,6 +402,11 @@ def fixed_cases(tier):
     out.append(dict(base, lazy=True, limits="int", precision="float64", seed=4))
     # lazy waves whose scan axis is not the trailing ensemble axis (known finding for the annular detector)
     out.append(dict(base, lazy=True, axes=[{"k": "S", "n": 2}, {"k": "O", "n": 3}], chunks=[1, 2], seed=6, limits="frac"))
+    # energy series at equal grid, extent and limits (stale per-process state keyed without the energy), then other limits
+    out.append(dict(base, limits="frac", seed=7, prime_offset=True, dp_base_chunks=[11, 0],
+                    then=[{"energy": 300e3}, {"energy": 60e3}, {"fi": 0.2, "fo": 0.5}]))
+    out.append(dict(base, limits="int", seed=8, lazy=True, dp_base_chunks=[5, 8],
+                    then=[{"extent": [base["extent"][0] * 1.3, base["extent"][1]]}, {"gpts": [20, 27]}]))
     out.append(dict(base, wave="exit", axes=[{"k": "S", "n": 2}, {"k": "S", "n": 2}], chunks=[1, 1], seed=5,
                     flex={"step": 0.7, "inner": "multiple", "fin": 0.2, "outer": "random", "fout": 0.7, "fa": 0.1, "fb": 0.9}))
     return out
